@@ -27,6 +27,7 @@ func checkC19(c *Ctx) {
 	c.Rule("C19/R6", "sibling recognisers: the new and the legacy 'key: value' line recognisers apply the same predicates (lower-case start, no space/upper in key, ':' after position 0, blank/tab separated value)")
 	c.Rule("C19/R7", "results are immutable: in the legacy reader every write to the current label map happens after the map was replaced by a copy in the same call; labels added by the server (permanent labels) are never set or removed by file content")
 
+	c.Rule("C19/R14", "the database answers as the in-memory pruning does: the statement that selects record contents returns every matching row (no DISTINCT: two records with the same content are two results), and the schema gives no column a collation (values compare bytewise, as part.merge compares them)")
 	c.Rule("C19/R13", "labels derived from names: the gomaxprocs label of a stored benchmark is the text after the name's last dash (strings.LastIndex); an upload's file name is derived by slicing, never through path.Base or filepath.Base")
 	c.Rule("C19/R12", "label sets are coalesced only when equal: in Labels.Equal a differing value and (where presence is tested) an absent key both lead to 'return false'")
 	c.Rule("C19/R10", "the query splitter undoes addToQuery's quoting: in parseQueryString the test for a backslash alone decides that the next byte is skipped")
@@ -45,6 +46,7 @@ func checkC19(c *Ctx) {
 	c19Escapes(c, p)
 	c19LabelsEqual(c, p)
 	c19NameLabels(c, p)
+	c19SQLText(c, p)
 	c19RepeatedCaptures(c, p, "C19/R11")
 	c20FreshMetaAll(c, p, "C19/R9")
 }
@@ -1405,4 +1407,53 @@ func c19NameLabels(c *Ctx, p *Prog) {
 		})
 	}
 	c.OK(R, "file-names:sliced", "", "no upload file name goes through a Base function")
+}
+
+// c19SQLText (C19/R14): two facts about SQL text that the Go side relies on. The search streams one result per stored
+// record, so the statement selecting r.Content has no DISTINCT; and part.merge prunes ranges with Go's bytewise string
+// comparison, so no column of the schema is given a collation that compares differently.
+func c19SQLText(c *Ctx, p *Prog) {
+	const R = "C19/R14"
+	nSel, nCreate := 0, 0
+	for _, fn := range p.Funcs("storage/db") {
+		eachInstr(fn, func(_ *ssa.BasicBlock, in ssa.Instruction) {
+			call, ok := in.(*ssa.Call)
+			if !ok {
+				return
+			}
+			co := calleeObj(&call.Call)
+			if co == nil || co.Pkg() == nil {
+				return
+			}
+			switch {
+			case co.Pkg().Path() == "database/sql" && (co.Name() == "Prepare" || co.Name() == "Exec" || co.Name() == "Query" || co.Name() == "QueryRow"):
+				args := callArgs(&call.Call)
+				if len(args) < 2 {
+					return
+				}
+				for _, s := range stringPieces(args[1]) {
+					up := strings.ToUpper(strings.Join(strings.Fields(s), " "))
+					if !strings.Contains(up, "SELECT") || !strings.Contains(up, "R.CONTENT") {
+						continue
+					}
+					nSel++
+					c.Check(!strings.Contains(up, "DISTINCT"), R, fmt.Sprintf("%s:content-select#%d", fnName(fn), nSel), p.pos(call.Pos()), "record contents are selected row by row",
+						fmt.Sprintf("the statement selecting record contents is %q: with DISTINCT two stored records whose content is the same bytes come back as one result, while the listing still counts two", truncate(s, 80)))
+				}
+			case co.Pkg().Path() == "text/template" && co.Name() == "Parse":
+				args := callArgs(&call.Call)
+				for _, s := range stringPieces(args[len(args)-1]) {
+					up := strings.ToUpper(s)
+					if !strings.Contains(up, "CREATE TABLE") {
+						continue
+					}
+					nCreate++
+					c.Check(!strings.Contains(up, "COLLATE"), R, fmt.Sprintf("%s:schema#%d", fnName(fn), nCreate), p.pos(call.Pos()), "no column of the schema has a collation",
+						"the schema declares a COLLATE clause: label values then compare in the database by that collation and in part.merge bytewise, so a query the merger proved empty (or pruned to a range) matches rows, or matching rows are missed")
+				}
+			}
+		})
+	}
+	c.Floor(R, "statements selecting record contents", nSel, 1)
+	c.Floor(R, "schema templates", nCreate, 1)
 }
